@@ -61,7 +61,7 @@ CLAIMED.update({
              "indistinguishable; reclamation clause - after any history ending with a write at t every PeriodicStore entry has expiry >= t - interval, every AdaptiveStore entry expiry >= t - max(5s,min,max) "
              "with < max(max_operations,1) writes since the last sweep (every oracle stream), ProbabilisticStore sweeps exactly on every N-th write inside the no-wrap prefix (multiplier and modulus regenerated "
              "from the source, coprimality checked). Entry counts and scheduling state of the real stores are compared with the model after every request.",
-        note=LIM_NOTE + " The probabilistic guarantee is proved for n*M < 2^64 (first ~6.9e9 writes); the bounded-size consequence is checked by the harness oracle, not proved as a cardinality theorem.",
+        note=LIM_NOTE + " The probabilistic guarantee is proved for n*M < 2^64 (first ~6.9e9 writes). Bounded size is proved as a cardinality theorem: #entries <= #distinct keys written with a lifetime reaching into the reclamation window (periodic, adaptive; probabilistic: after a sweep, plus one per write in between).",
         technique="Coq proof (invariants by induction over operation sequences, number theory for the multiplicative hash) + differential correspondence (H1 entry counts/snapshots)", ref="DESIGN.md §5 C07"),
     "C08": dict(
         text="Machine-checked theorems (Properties/C08.v): for all i64 limits/quantity, any key, timestamps 1970..2200, any non-negative emission interval, any stored value, every reachable built-in store "
